@@ -9,7 +9,7 @@ use crate::lintmon;
 use crate::tokmon;
 use harper_core::linting::{Lint, LintGroup, Linter};
 use harper_core::parsers::Parser;
-use harper_core::{remove_overlaps, Dialect, Document, FstDictionary};
+use harper_core::{remove_overlaps, Dialect, Dictionary, Document, FstDictionary};
 use serde_json::{json, Value};
 use std::cell::RefCell;
 use std::collections::HashMap;
@@ -877,6 +877,99 @@ pub fn worker(ctx: &mut Ctx) {
             let (cfg, dialect) = stream.cfg_for(unit);
             let wrap = if r.chance(2, 3) { Wrap::Collapse } else { Wrap::None };
             run!(Case { fam: "split-and-fence", fe, wrap, text, cfg, dialect });
+        }
+    }
+
+    // N. lexer forms: prefix closure of complete URL / e-mail / number / path shapes, each prefix followed by the
+    //    characters that decide how the form ends (what a user sees while typing `http://localhost:8080`)
+    {
+        let leads = ["", "See ", "- "];
+        let ends = ["", ":", ": x", " ", "\n", ".", ":\nnext line", "/", ",", "@", ")", "\u{2019}s"];
+        for (fi, form) in LEXFORMS.iter().enumerate() {
+            unit += 1;
+            if !ctx.mine(unit) {
+                continue;
+            }
+            let (cfg, dialect) = stream.cfg_for(unit);
+            let chars: Vec<char> = form.chars().collect();
+            for end in 1..=chars.len() {
+                let p: String = chars[..end].iter().collect();
+                for (li, lead) in leads.iter().enumerate() {
+                    for (ei, e) in ends.iter().enumerate() {
+                        if ctx.quick() && li > 0 && (ei + end + fi) % 3 != 0 {
+                            continue;
+                        }
+                        let text = format!("{lead}{p}{e}");
+                        let fe = match (li + ei + end) % 4 {
+                            0 | 1 => Fe::Plain,
+                            2 => Fe::Md,
+                            _ => Fe::Git,
+                        };
+                        run!(Case { fam: "lexform", fe, wrap: Wrap::None, text: text.clone(), cfg: cfg.clone(), dialect });
+                        if li == 0 && ei < 2 && !ctx.quick() {
+                            let other = other_fes[(fi + end) % other_fes.len()];
+                            let mut er = Rng((fi * 1000 + end) as u64 + 17);
+                            let t = embed(other, &mut er, &text);
+                            run!(Case { fam: "lexform", fe: other, wrap: Wrap::None, text: t, cfg: cfg.clone(), dialect });
+                        }
+                    }
+                }
+            }
+        }
+    }
+
+    // O. the dictionary against the dialects: every curated word that carries a dialect mark, under every
+    //    dialect (the spell checker takes a different path for a word of another dialect), bare, capitalised
+    //    and inside a sentence; plus a slice of the unmarked words under a rotating dialect
+    {
+        let mut marked: Vec<String> = Vec::new();
+        let mut plain_words: Vec<String> = Vec::new();
+        for w in env.dict.words_iter() {
+            let has = env.dict.get_word_metadata(w).map(|m| m.dialect.is_some()).unwrap_or(false);
+            let s: String = w.iter().collect();
+            if has {
+                marked.push(s);
+            } else {
+                plain_words.push(s);
+            }
+        }
+        marked.sort();
+        plain_words.sort();
+        let stride = ctx.budget(40, 4).max(1) as usize;
+        let offset = (ctx.seed as usize) % stride;
+        ctx.report.count("dialect_marked_words", marked.len() as u64);
+        let shapes = |w: &str| -> Vec<String> {
+            let mut cs = w.chars();
+            let cap: String = match cs.next() {
+                Some(f) => f.to_uppercase().chain(cs).collect(),
+                None => String::new(),
+            };
+            vec![w.to_string(), cap.clone(), format!("We saw the {w} today."), format!("{cap} is what {w}s are."), w.to_uppercase()]
+        };
+        for (wi, w) in marked.iter().enumerate() {
+            unit += 1;
+            if !ctx.mine(unit) {
+                continue;
+            }
+            for dialect in DIALECTS {
+                for (k, text) in shapes(w).into_iter().enumerate() {
+                    let fe = if (wi + k) % 5 == 4 { Fe::Md } else { Fe::Plain };
+                    run!(Case { fam: "dictword", fe, wrap: Wrap::None, text, cfg: Cfg::Curated, dialect });
+                }
+            }
+        }
+        for (wi, w) in plain_words.iter().enumerate() {
+            if wi % stride != offset {
+                continue;
+            }
+            unit += 1;
+            if !ctx.mine(unit) {
+                continue;
+            }
+            let dialect = DIALECTS[(wi / stride) % DIALECTS.len()];
+            for text in shapes(w).into_iter().take(3) {
+                run!(Case { fam: "dictword", fe: Fe::Plain, wrap: Wrap::None, text, cfg: Cfg::Curated, dialect });
+            }
         }
     }
 
